@@ -40,8 +40,13 @@ class Budget(BaseException):
     pass
 
 
+class LogMismatch(BaseException):
+    """the decision log does not fit the re-execution: the harness is not deterministic (engine fault)"""
+
+
 EX = None  # current explorer (one per process)
 SOLVER_KIND = os.environ.get('SYMX_SOLVER', 'default')
+SAMPLE_LARGE_DOMAINS = True
 
 
 def make_solver():
@@ -70,6 +75,9 @@ class Explorer:
         self.unknowns = 0
         self.nontrivial = 0
         self.t0 = time.time()
+        self.sampled = 0
+        self._abort = False
+        self._unsup = None
 
     # -- solver -----------------------------------------------------------
     def check(self, *extra):
@@ -88,9 +96,16 @@ class Explorer:
         self.solver.add(c)
 
     # -- decisions --------------------------------------------------------
+    def _sticky(self):
+        if self._abort:
+            raise PathAbort()
+        if self._unsup is not None:
+            raise Unsupported(self._unsup)
+
     def decide(self, cond):
         if cond is True or cond is False:
             return cond
+        self._sticky()
         cond = z3.simplify(cond)
         if z3.is_true(cond):
             return True
@@ -98,7 +113,8 @@ class Explorer:
             return False
         if self.pos < len(self.prefix):
             d = self.prefix[self.pos]
-            assert d is True or d is False, 'decision log out of step (non-deterministic harness?)'
+            if not (d is True or d is False):
+                raise LogMismatch('decide() at %d found %r; trace so far %r' % (self.pos, d, self.trace[-6:]))
         else:
             self._tick()
             rt = self.check(cond)
@@ -136,14 +152,38 @@ class Explorer:
             if self.check() != z3.sat:
                 raise PathAbort()
 
-    def concretize(self, term):
+    def domain_size_at_most(self, term, limit):
+        """True iff `term` has at most `limit` feasible values on the current path (probe without forking)"""
+        self.solver.push()
+        try:
+            for _ in range(limit + 1):
+                if self.check() != z3.sat:
+                    return True
+                v = self.model().eval(term, model_completion=True)
+                self.solver.add(term != v)
+            return False
+        finally:
+            self.solver.pop()
+
+    def concretize(self, term, limit=None):
         """fork over every feasible integer value of `term`"""
         term = z3.simplify(term)
         if z3.is_int_value(term):
             return term.as_long()
+        self._sticky()
+        if limit is not None and self.pos >= len(self.prefix):
+            if not self.domain_size_at_most(term, limit):
+                if not SAMPLE_LARGE_DOMAINS:
+                    raise Unsupported('concretisation of a value with more than %d feasible values' % limit)
+                return self.sample(term)
+        elif limit is not None and self.pos < len(self.prefix) and isinstance(self.prefix[self.pos], tuple) and self.prefix[self.pos][0] == 'sample':
+            return self.sample(term)
         if self.pos < len(self.prefix):
             e = self.prefix[self.pos]
-            assert isinstance(e, tuple), 'decision log out of step (non-deterministic harness?)'
+            if not isinstance(e, tuple):
+                raise LogMismatch('concretize() at %d found %r; trace so far %r' % (self.pos, e, self.trace[-6:]))
+            if e[0] == 'sample':
+                return self.sample(term)
             if e[0] == 'val':
                 _, v, excl = e
             else:  # ('pick', excl): choose a new value outside excl
@@ -173,6 +213,52 @@ class Explorer:
             self.work.append(list(self.trace) + [('pick', [v])])
             self.symbolic_branches += 1
         self.trace.append(('val', v, excl))
+        self.pos += 1
+        self.solver.add(term == v)
+        return v
+
+    def sample(self, term):
+        """NOT exhaustive: a value with a large domain reached code that needs it concretely (a C-level call without
+        a shim).  The path continues on a few representative values (smallest, largest, and a few solver-chosen
+        ones); such paths are counted in `sampled` and reported as not exhaustively decided."""
+        if self.pos < len(self.prefix):
+            e = self.prefix[self.pos]
+            if not (isinstance(e, tuple) and e[0] == 'sample'):
+                raise LogMismatch('sample() at %d found %r' % (self.pos, e))
+            v = e[1]
+        else:
+            reps = []
+            self.solver.push()
+            try:
+                for extra in (None, 'lo', 'hi'):
+                    for _ in range(3 if extra is None else 1):
+                        if self.check() != z3.sat:
+                            break
+                        m = self.model()
+                        v0 = m.eval(term, model_completion=True).as_long()
+                        if extra == 'lo':
+                            # walk down a few times
+                            for _k in range(24):
+                                if self.check(term < v0) != z3.sat:
+                                    break
+                                v0 = self.model().eval(term, model_completion=True).as_long()
+                        if extra == 'hi':
+                            for _k in range(24):
+                                if self.check(term > v0) != z3.sat:
+                                    break
+                                v0 = self.model().eval(term, model_completion=True).as_long()
+                        if v0 not in reps:
+                            reps.append(v0)
+                        self.solver.add(term != v0)
+            finally:
+                self.solver.pop()
+            if not reps:
+                raise PathAbort()
+            v = reps[0]
+            for other in reps[1:]:
+                self.work.append(list(self.trace) + [('sample', other)])
+            self.sampled += 1
+        self.trace.append(('sample', v))
         self.pos += 1
         self.solver.add(term == v)
         return v
